@@ -184,7 +184,9 @@ def sample_claims(a, x):
     return C
 
 
-def build_event(a, seed):
+def build_event(a, seed, rowscale=False):
+    """rowscale: the rows of a batch live on very different scales (row 0 near +m, row 1 near -m, ...) - any real parameter batch is
+    admissible, and a map that lets one row influence another (a shift, a norm, a maximum taken over the whole batch) shows there"""
     import torch, numqi
     rng = np.random.default_rng(seed)
     mod = make_module(a)
@@ -193,6 +195,9 @@ def build_event(a, seed):
     vals = []
     for p in pars:
         v = rng.uniform(-mag, mag, size=tuple(p.shape))
+        if rowscale and a['batch'] >= 2 and v.ndim >= 2 and v.shape[0] == a['batch']:
+            sgn = np.array([1.0 if i % 2 == 0 else -1.0 for i in range(a['batch'])]).reshape((-1,) + (1,) * (v.ndim - 1))
+            v = sgn * mag * rng.uniform(0.8, 1.0, size=v.shape)
         vals.append(v)
         p.data[...] = torch.tensor(v, dtype=p.dtype)
     with torch.no_grad():
@@ -297,10 +302,13 @@ def run(ctx):
     # 'known' in known_findings.json would be evaluated here in every run and reported as KNOWN-FINDING
     pinned = [(dict(cls='Stiefel', method='polar', d=6, r=6, opt=0, cplx=False, p32=True, batch=3, mag=1), 14627),
               (dict(cls='Stiefel', method='polar', d=4, r=4, opt=0, cplx=False, p32=True, batch=1, mag=2), 5824)]
-    for i, a in enumerate([p[0] for p in pinned] + calls):
-        ctx.case(('manifold',) + tuple(sorted(a.items())))
+    todo = [(a, sd, False) for a, sd in pinned] + [(a, ctx.seed * 1000003 + i, False) for i, a in enumerate(calls)]
+    todo += [(a, ctx.seed * 1000003 + 7 * i + 1, True) for i, a in enumerate(calls) if a['batch'] >= 2]          # the same descriptors with rows on different scales
+    for a, sd, rowscale in todo:
+        ctx.case(('manifold', rowscale) + tuple(sorted(a.items())))
         try:
-            e = build_event(a, pinned[i][1] if i < len(pinned) else ctx.seed * 1000003 + i)
+            e = build_event(a, sd, rowscale)
+            e['rowscale'] = rowscale
             ev.append(e)
             meta.append(a)
         except Exception as ex:
@@ -324,7 +332,7 @@ def run(ctx):
         ctx.violation('C01:%s:%s:%s%s' % (a['cls'], a['method'] or 'default', info[-1], ':float32' if a['p32'] else ''),
                       '%s(method=%s, dim=%d, rank=%d, opt=%d, %s, %s, batch=%s, |theta|<=%g): claim "%s" rejected - the output is not on the manifold / the call routes disagree'
                       % (a['cls'], a['method'], a['d'], a['r'], a['opt'], 'complex' if a['cplx'] else 'real', 'float32' if a['p32'] else 'float64', a['batch'] or None, MAG[a['mag']], info[-1]),
-                      dict(descriptor=a, failing_claim=info[-1], seed=ev[gi]['seed']))
+                      dict(descriptor=a, failing_claim=info[-1], seed=ev[gi]['seed'], rowscale=ev[gi].get('rowscale', False)))
     if ev:
         ctx.sample(dict(kind='manifold-event', descriptor=ev[len(ev) // 2]['a'], claims=[c['c'] for c in ev[len(ev) // 2]['claims']]))
 
@@ -333,7 +341,7 @@ def replay(ctx, rec):
     print('replay', rec['key'], rec['what'])
     d = rec['data']
     if 'descriptor' in d and 'seed' in d:
-        e = build_event(d['descriptor'], d['seed'])
+        e = build_event(d['descriptor'], d['seed'], d.get('rowscale', False))
         acc, rej, _ = tlc.validate_events('manifold/Trace_Manifold.tla', 'manifold/Trace_Manifold.cfg', [e], shards=1)
         print('accepted' if acc else 'rejected: %s' % (rej,))
         return 0 if acc else 1
